@@ -214,7 +214,7 @@ def make_judges(ctx):
 def floors(tier):
     return [('way', w) for w in ('out', 'out_like', 'same', 'largest', 'smallest', 'same+const')] + [('method', 'raw'), ('method', 'repr')] + \
            [('unary', u) for u in ('__neg__', '__pos__', '__abs__')] + [('unary-config',)] + \
-           [('wide-target-at-the-limit', m) for m in ('raw', 'repr')] + [('integer-operand-large-constant', m) for m in ('raw', 'repr')]
+           [('wide-target-at-the-limit', m) for m in ('raw', 'repr')] + [('integer-operand-large-constant', m) for m in ('raw', 'repr')] + [('element-operands-coarser-target', m) for m in ('raw', 'repr')]
 
 
 # ------------------------------------------------------------------------------------------ workload
@@ -407,6 +407,23 @@ def run_case(case, ctx):
                 _try(lambda: xi + big)
                 _try(lambda: xi - big)
         ctx.floor_hit(('integer-operand-large-constant', method))
+    # 6. operands taken out of arrays by indexing (their codes are NumPy scalars, not arrays): unsigned - unsigned with a negative difference into
+    #    targets that have fewer fraction bits than the operands, and the other operations on the same pairs
+    if (i // 12) % 4 == 2:
+        wx_, wy_ = rng.randint(4, 30), rng.randint(4, 30)
+        nfx_, nfy_ = rng.randint(2, wx_), rng.randint(2, wy_)
+        ax = Fxp([rng.randint(0, 3), rng.randint(0, 2 ** wx_ - 1), 0], False, wx_, nfx_, raw=True, op_method=method, rounding=rx, overflow=ox)
+        ay = Fxp([2 ** wy_ - 1 - rng.randint(0, 3), rng.randint(0, 2 ** wy_ - 1)], False, wy_, nfy_, raw=True, op_method=method, rounding=ry, overflow=oy)
+        for xe, ye in ((ax[0], ay[0]), (ax[1], ay[1]), (ax[0], ay), (ax[1:], ay[0]), (ay[0], ax[1])):
+            for st_ in (True, False):
+                nft_ = rng.randint(0, min(nfx_, nfy_) - 1)
+                for ov in ('saturate', 'wrap'):
+                    _try(lambda: fm.sub(xe, ye, out=Fxp(None, st_, rng.randint(8, 40), nft_, rounding=rt, overflow=ov), method=method))
+                    _try(lambda: fm.sub(xe, ye, out_like=Fxp(None, st_, rng.randint(8, 40), nft_, rounding=rt, overflow=ov), method=method))
+            _try(lambda: fm.sub(xe, ye, sizing='smallest', method=method))
+            _try(lambda: fm.add(xe, ye, out_like=Fxp(None, False, 24, 0, rounding=rt), method=method))
+            _try(lambda: fm.mul(xe, ye, out_like=Fxp(None, False, 24, 1, rounding=rt), method=method))
+        ctx.floor_hit(('element-operands-coarser-target', method))
     x = mkx()
     x += mky()
     x = mkx()
